@@ -192,6 +192,29 @@ type shortDevAt struct {
 
 func (d *shortDevAt) WriteAt(p []byte, off int64) (int, error) { return d.at.WriteAt(p, off) }
 
+// ReadAt makes the device an io.ReaderAt as well (as *os.File is). It does not move the position. Where the bytes
+// read end exactly at the end of the device it answers (len(p), io.EOF) in the eof-with-data environments and
+// (len(p), nil) in the others: the io.ReaderAt contract allows either. go-mc does not use ReadAt today; a region
+// that starts to must cope with both answers.
+func (d *shortDevAt) ReadAt(p []byte, off int64) (int, error) {
+	buf := d.m.Buf
+	if off < 0 {
+		return 0, errors.New("c14: negative ReadAt offset")
+	}
+	if off >= int64(len(buf)) {
+		return 0, io.EOF
+	}
+	n := copy(p, buf[off:])
+	if n < len(p) {
+		return n, io.EOF
+	}
+	if d.eofData && off+int64(n) == int64(len(buf)) {
+		d.st.eofWithData++
+		return n, io.EOF
+	}
+	return n, nil
+}
+
 func newShortDev(env Env, b []byte, st *envStats) regionx.Dev {
 	if env.Medium == "mem+WriterAt" {
 		at := &regionx.MemAt{Mem: regionx.Mem{Buf: b}}
